@@ -42,7 +42,7 @@ def values_match(model, dec, path='$'):
             if x != y:
                 if abs(x) < 1e15 and x == math.floor(x):
                     return '%s: integer %r printed as %r' % (p, x, d.sval)
-                if not abs(x - y) <= abs(x) * 2.0 ** -52:
+                if not abs(x - y) <= max(abs(x), abs(y)) * 2.0 ** -52:
                     return '%s: number %r printed as %r' % (p, x, d.sval)
             continue
         if m.kind != d.kind:
@@ -129,6 +129,13 @@ def run_shard(shard_prop, bins, workdir, tier):
         a.kids = [Node.num(float(i)) for i in range(300)]
         trees.append((['build 1 ' + to_tn(a)], a, 0, 'many'))
 
+    if kind != 'trees' and prop == 'C09':
+        # items the printer has a dedicated branch for: a string without text and a member without
+        # key print as "" (the trees are odd, but printing them must respect the buffer all the same)
+        trees.append((['carr 1', 'cstrref 2 ~', 'adda 1 2', 'cnum 3 3ff0000000000000', 'adda 1 3'], None, 2, 'null-text'))
+        trees.append((['cstrref 1 ~'], None, 2, 'null-text'))
+        trees.append((['cobj 1', 'cnum 2 4000000000000000', 'adda 1 2', 'ctrue 3', 'addo 1 =6b 3'], None, 2, 'null-key'))
+        trees.append((['cobj 1', 'cobj 2', 'adda 1 2', 'cstrref 3 ~', 'adda 2 3'], None, 2, 'null-key'))
     cfgs = ['default', 'custom'] if prop in ('C04', 'C05') else ['default']
     cases = []
     meta = {}
@@ -136,7 +143,8 @@ def run_shard(shard_prop, bins, workdir, tier):
     for ti, (mk, model, mode, label) in enumerate(trees):
         big = label.startswith(('deep-', 'wide-')) or label in ('len-5000', 'key-5000')
         for cfg in cfgs:
-            ops = list(mk) + ['prbat 1 %d' % (mode | (4 if (thorough and not big) else 0) | (0 if prop == 'C09' else 8)), 'del 1']
+            loc = (cid % 5 == 3) and not big
+            ops = list(mk) + (['setloc 1'] if loc else []) + ['prbat 1 %d' % (mode | (4 if (thorough and not big) else 0) | (0 if prop == 'C09' else 8)), 'del 1'] + (['setloc 0'] if loc else [])
             cases.append((cid, cfg, ops))
             meta[cid] = (ti, cfg)
             cid += 1
@@ -154,7 +162,9 @@ def run_shard(shard_prop, bins, workdir, tier):
                 continue
             if cl.end and cl.end.get('live') != '0':
                 out.vios.append(Violation(prop, 'leak/after-delete', '%s blocks live after build/print/delete' % cl.end.get('live'), wit(cl, 2)))
-            f = cl.ops.get(1)
+            f = next((v for _i, v in sorted(cl.ops.items()) if v and v[0] == 'prbat'), None)
+            if any(v[:2] == ['setloc', 'comma'] for v in cl.ops.values()) and fl == sorted(bins)[0]:
+                out.count('printed_under_comma_locale')
             if not f or f[0] != 'prbat' or len(f) < 5:
                 if cl.ops.get(0) and cl.ops[0][0] == 'nil' and label == 'parsed':
                     continue   # text not accepted by the parser: nothing to print
@@ -171,7 +181,7 @@ def run_shard(shard_prop, bins, workdir, tier):
                 out.count('class:' + label.split('-')[0])
                 out.count('prealloc_lengths_tried', 2 * (min(len(u), 1600) + min(len(ftxt), 1600)) // 2 + 36)
                 if cid % 53 == 5 and len(u) < 70:
-                    out.sample({'tree': to_tn(model)[:120], 'unformatted': u.decode('latin-1'), 'first_n_that_succeeds': [int(kv['ok0']), int(kv['ok1'])], 'text_len': [len(u), len(ftxt)]})
+                    out.sample({'tree': to_tn(model)[:120] if model is not None else label, 'unformatted': u.decode('latin-1'), 'first_n_that_succeeds': [int(kv['ok0']), int(kv['ok1'])], 'text_len': [len(u), len(ftxt)]})
             texts.setdefault((ti, fl), {})[cfg] = (u, ftxt)
             if prop == 'C09':
                 for fmt, t in ((0, u), (1, ftxt)):
@@ -227,7 +237,7 @@ def finish(prop, tier, results):
         'classes': {k[6:]: v for k, v in sorted(tot.stats.items()) if k.startswith('class:')},
         'print_batteries_run': tot.evals,
     }
-    for k in ('prealloc_lengths_tried', 'strict_decoded'):
+    for k in ('prealloc_lengths_tried', 'strict_decoded', 'printed_under_comma_locale'):
         if k in tot.stats:
             cov[k] = tot.stats[k]
     if prop == 'C09':
